@@ -29,6 +29,15 @@ func newResolver(s *status.Status) *resolver {
 	}
 }
 
+// symbolID produces a non-empty identifier for a symbol. Names without letters or digits (such
+// as "_") keep their underscores, which form a valid identifier on their own.
+func symbolID(name string, style ident.Style) string {
+	if id := ident.Produce(name, style); id != "" {
+		return id
+	}
+	return strings.Repeat("_", max(strings.Count(name, "_"), 1))
+}
+
 func (c *resolver) addToken(name, id string, t ast.RawType, space ast.LexemeAttribute, n status.SourceNode) int {
 	var rawType string
 	if t.IsValid() {
@@ -57,7 +66,7 @@ func (c *resolver) addToken(name, id string, t ast.RawType, space ast.LexemeAttr
 	}
 	c.tokID[name] = id
 	if id == "" {
-		id = ident.Produce(name, ident.UpperCase)
+		id = symbolID(name, ident.UpperCase)
 	}
 	if prev, exists := c.ids[id]; exists {
 		c.Errorf(n, "%v and %v get the same ID in generated code", name, prev)
@@ -89,7 +98,7 @@ func (c *resolver) addNonterms(m *syntax.Model) {
 			// TODO come up with a better error message
 			c.Errorf(nt.Origin, "duplicate name %v", name)
 		}
-		id := ident.Produce(name, ident.CamelCase)
+		id := symbolID(name, ident.CamelCase)
 		if prev, exists := c.ids[id]; exists {
 			c.Errorf(nt.Origin, "%v and %v get the same ID in generated code", name, prev)
 		}
